@@ -139,7 +139,8 @@ def parse_graphic_sequence(
         return [AnsiSetting(AnsiParam.RESET.value)]
     output = []
     if isinstance(sequence, str):
-        items = [item.strip() for item in sequence.split(ansi_sep)]
+        # An empty parameter means the default value, which is 0 (same as the empty sequence above)
+        items = [item.strip() or str(AnsiParam.RESET.value) for item in sequence.split(ansi_sep)]
     else:
         items = sequence
     # Attempt to make each value an integer
